@@ -202,6 +202,7 @@ func TestC02Random(t *testing.T) {
 		for i := 0; i < n; i++ {
 			kinds = append(kinds, rapid.SampledFrom(nonJoinKinds).Draw(rt, "kind"))
 		}
+		tenv.RepeatOps = true
 		q, _, _ := g.TypedSequence("A", gen.StdSchemas["A"], kinds, tenv, 0)
 		prog := &gen.Program{Stmts: []gen.Stmt{q}}
 		c := mkEvalCase(prog, db, nil)
